@@ -125,6 +125,38 @@ func (g *c16Gen) class(depth int) *gen.Node {
 	for i := 0; i < cnt; i++ {
 		n.Items = append(n.Items, g.item())
 	}
+	if !g.ic && g.rng.Intn(5) == 0 {
+		// "a category, then everything but one rune": both halves around the same rune, in either
+		// order, after a shorthand / property (the shape the canonicalisation special-cases)
+		c := g.single()
+		if c > 0 && c < unicode.MaxRune && !(c >= 0xD7FF && c <= 0xE000) {
+			lo := gen.ClassItem{T: "range", Lo: 0, Hi: c - 1, Sp: 15}
+			hi := gen.ClassItem{T: "range", Lo: c + 1, Hi: unicode.MaxRune, Sp: 15}
+			var cat gen.ClassItem
+			if g.ecma || g.rng.Intn(2) == 0 {
+				cat = gen.ClassItem{T: "esc", Name: string("dDwWsS"[g.rng.Intn(6)])}
+			} else {
+				cat = gen.ClassItem{T: "prop", Name: c16Props[g.rng.Intn(len(c16Props))], Neg: g.rng.Intn(3) == 0}
+			}
+			var items []gen.ClassItem
+			switch g.rng.Intn(4) {
+			case 0:
+				items = []gen.ClassItem{cat, lo, hi}
+			case 1:
+				items = []gen.ClassItem{cat, hi, lo}
+			case 2:
+				items = []gen.ClassItem{lo, cat, hi}
+			default:
+				items = []gen.ClassItem{lo, hi, cat}
+			}
+			if g.rng.Intn(2) == 0 {
+				n.Items = items
+				n.Neg = g.rng.Intn(6) == 0
+			} else {
+				n.Items = append(n.Items, items...)
+			}
+		}
+	}
 	if depth > 0 && !g.ecma && g.rng.Intn(4) == 0 {
 		n.Sub = g.class(depth - 1)
 	}
